@@ -103,6 +103,8 @@ void h_adv(void)
     size_t gl = nondet_size_t();          /* ghost level */
     __CPROVER_assume(gl < VC_MD);
     binson_state o_level = st[gl];
+    uint_fast8_t o_ad = p.current_state->array_depth;
+    binson_state *lv = p.current_state;
 
     bool ret = _advance_parsing(&p, scan_flags, scan_name);
 
@@ -119,6 +121,12 @@ void h_adv(void)
     __CPROVER_assert(VC_ADV_POST_TRUE_NO_ERROR(&p, ret), "true only without error");                            /*@ adv-true-no-error */
     __CPROVER_assert(VC_ADV_POST_MONOTONE(&p, o_err, o_used), "cursor never moves backwards across a call");    /*@ adv-cursor-monotone */
     __CPROVER_assert(VC_ADV_POST_VERIFY_FALSE(ret, scan_flags), "a VERIFY scan never returns true");            /*@ adv-verify-never-true */
+    __CPROVER_assert(VC_ADV_POST_FALSE_SAME_DEPTH(&p, ret, scan_flags, o_err, o_depth),
+                     "a next/lookup scan that fails without error is at the depth it started at");                /*@ adv-false-same-depth */
+    __CPROVER_assert(VC_ADV_POST_LEAVE_ARRAY(&p, ret, scan_flags, o_depth, o_ad, lv),
+                     "a leave_array scan that succeeds has closed exactly the array it started in");             /*@ adv-leave-array-closes-it */
+    __CPROVER_assert(VC_ADV_POST_LEAVE_OBJECT(&p, ret, scan_flags, o_depth),
+                     "a leave_object scan that succeeds has closed exactly the object it started in");           /*@ adv-leave-object-closes-it */
     __CPROVER_assert(p.type == o_type && p.max_depth == VC_MD && p.buffer == buf && p.buffer_size == n &&
                      p.state == st && p.cb == NULL, "configuration fields unchanged");                          /*@ adv-config-unchanged */
     __CPROVER_assert(n == 0 || buf[g] == o_byte, "input buffer not written");                                   /*@ adv-buffer-unchanged */
